@@ -1,1 +1,532 @@
-fn main() {}
+//! Engine C — `crashsim` (DESIGN §6): corrupted wire data against long-lived workers. Serves C17.
+//!
+//! One run = one supervisor session: one worker process is spawned and fed a tape-chosen number of
+//! deliveries `(entry point, bytes)`; every decision (entry point, seed, mutations, their parameters)
+//! is drawn from the tape. Observables: panic payload, process death (signal / exit status), hang
+//! (20 s watchdog, confirmed twice in isolation), canary drift.
+
+mod entries;
+mod entries_http;
+mod entries_stateres;
+mod mutate;
+mod seeds;
+mod seeds_events;
+mod seeds_gen;
+mod supervisor;
+mod worker;
+
+use std::collections::VecDeque;
+use std::sync::OnceLock;
+use std::time::Duration;
+
+use serde_json::{json, Value};
+use simcore::{CheckSpec, Engine, Known, RunOutcome, Tape, Tier, Violation};
+
+use entries::ENTRIES;
+use supervisor::{isolated, Reply, Worker, WATCHDOG};
+use worker::worker_main;
+
+simcore::install_getrandom_seam!();
+
+const PROP: &str = "C17";
+
+// ---------------------------------------------------------------------------------------------
+// corpus
+
+struct Corpus {
+    /// per entry point: seeds (embedded first, fixtures after) and their provenance
+    seeds: Vec<Vec<(String, Vec<u8>)>>,
+    byte_kinds: Vec<Vec<&'static str>>,
+    struct_kinds: Vec<Vec<&'static str>>,
+}
+
+fn corpus() -> &'static Corpus {
+    static C: OnceLock<Corpus> = OnceLock::new();
+    C.get_or_init(|| {
+        let fixtures = seeds::load_fixtures();
+        // single objects out of fixture arrays
+        let mut objects: Vec<(String, Vec<u8>)> = Vec::new();
+        for (path, bytes) in &fixtures {
+            if let Ok(Value::Array(a)) = serde_json::from_slice::<Value>(bytes) {
+                for (i, v) in a.iter().enumerate().take(40) {
+                    if v.is_object() {
+                        objects.push((format!("{path}[{i}]"), serde_json::to_vec(v).unwrap_or_default()));
+                    }
+                }
+            }
+        }
+        let mut all = Vec::new();
+        let mut bk = Vec::new();
+        let mut sk = Vec::new();
+        for e in ENTRIES {
+            let mut s: Vec<(String, Vec<u8>)> = seeds::embedded(e.name).into_iter().enumerate().map(|(i, b)| (format!("embedded#{i}"), b)).collect();
+            if seeds::wants_fixture_files(e.name) {
+                s.extend(fixtures.iter().cloned());
+            }
+            if seeds::wants_fixture_objects(e.name) {
+                s.extend(objects.iter().cloned());
+            }
+            all.push(s);
+            bk.push(mutate::byte_kinds(e.traits));
+            sk.push(mutate::struct_kinds(e.traits));
+        }
+        Corpus { seeds: all, byte_kinds: bk, struct_kinds: sk }
+    })
+}
+
+// ---------------------------------------------------------------------------------------------
+// deliveries
+
+struct Delivery {
+    entry: usize,
+    seed: usize,
+    kinds: Vec<&'static str>,
+    bytes: Vec<u8>,
+}
+
+const MUTATION_COUNTS: [usize; 8] = [0, 1, 1, 1, 2, 2, 3, 4];
+
+fn gen_delivery(t: &mut Tape, c: &Corpus) -> Delivery {
+    let entry = t.index(ENTRIES.len());
+    let traits = ENTRIES[entry].traits;
+    let seeds = &c.seeds[entry];
+    let seed = t.index(seeds.len());
+    let n = MUTATION_COUNTS[t.index(MUTATION_COUNTS.len())];
+    let mut chosen: Vec<&'static str> = Vec::with_capacity(n);
+    for _ in 0..n {
+        let structural = !c.struct_kinds[entry].is_empty() && t.below(3) > 0;
+        let list = if structural { &c.struct_kinds[entry] } else { &c.byte_kinds[entry] };
+        chosen.push(list[t.index(list.len())]);
+    }
+    // structure-level mutations work on the parsed form, so they go first (stable order otherwise)
+    chosen.sort_by_key(|k| !mutate::is_structural(k));
+    let mut bytes = seeds[seed].1.clone();
+    let mut kinds = Vec::new();
+    for k in chosen {
+        let other: &[u8] = if k == "splice" { &seeds[t.index(seeds.len())].1 } else { &[] };
+        if mutate::apply(k, traits, &mut bytes, other, t) {
+            kinds.push(k);
+        }
+    }
+    if bytes.len() > mutate::MAX_INPUT {
+        bytes.truncate(mutate::MAX_INPUT);
+        kinds.push("cap_truncate");
+    }
+    Delivery { entry, seed, kinds, bytes }
+}
+
+fn lossy(b: &[u8], max_chars: usize) -> String {
+    let s = String::from_utf8_lossy(b);
+    if s.chars().count() > max_chars {
+        let mut t: String = s.chars().take(max_chars).collect();
+        t.push_str("…(truncated)");
+        t
+    } else {
+        s.to_string()
+    }
+}
+
+fn hex(b: &[u8]) -> String {
+    b.iter().map(|x| format!("{x:02x}")).collect()
+}
+
+fn detail(c: &Corpus, d: &Delivery, index: u64, what: &str, message: &str, extra: Value) -> Value {
+    let (seed_name, seed_bytes) = &c.seeds[d.entry][d.seed];
+    let mut v = json!({
+        "oracle": "crash",
+        "kind": what,
+        "entry_point": ENTRIES[d.entry].name,
+        "delivery_index": index,
+        "mutations": d.kinds,
+        "input": lossy(&d.bytes, 2000),
+        "input_len": d.bytes.len(),
+        "message": message,
+        "seed": seed_name,
+        "seed_input": lossy(seed_bytes, 2000),
+    });
+    if d.bytes.len() < 512 {
+        v["input_hex"] = json!(hex(&d.bytes));
+    }
+    if let (Value::Object(m), Value::Object(x)) = (&mut v, extra) {
+        for (k, val) in x {
+            m.insert(k, val);
+        }
+    }
+    v
+}
+
+struct TraceBuf {
+    on: bool,
+    head: Vec<String>,
+    tail: VecDeque<String>,
+    total: usize,
+}
+impl TraceBuf {
+    fn push(&mut self, l: String) {
+        if !self.on {
+            return;
+        }
+        self.total += 1;
+        if self.head.len() < 40 {
+            self.head.push(l);
+        } else {
+            if self.tail.len() == 20 {
+                self.tail.pop_front();
+            }
+            self.tail.push_back(l);
+        }
+    }
+    fn finish(self) -> Vec<String> {
+        let mut v = self.head;
+        let omitted = self.total.saturating_sub(v.len() + self.tail.len());
+        if omitted > 0 {
+            v.push(format!("... ({omitted} deliveries omitted)"));
+        }
+        v.extend(self.tail);
+        v
+    }
+}
+
+fn len_class(n: usize) -> u64 {
+    (usize::BITS - n.leading_zeros()) as u64
+}
+
+struct CrashEngine;
+
+enum Verdict {
+    Fine,
+    /// (signature kind, message, extra detail, worker must be replaced)
+    Bad(&'static str, String, Value, bool),
+}
+
+impl Engine for CrashEngine {
+    fn name(&self) -> &'static str {
+        "crashsim"
+    }
+
+    fn hash_order_sensitive(&self) -> bool {
+        false
+    }
+
+    fn spec(&self, property: &str, tier: Tier) -> Option<CheckSpec> {
+        if property != PROP {
+            return None;
+        }
+        let mut probes = Vec::new();
+        for e in ENTRIES {
+            probes.push(format!("entry.{}.ok", e.name));
+            probes.push(format!("entry.{}.err", e.name));
+        }
+        Some(CheckSpec {
+            property: PROP.into(),
+            profile: "C17".into(),
+            runs: if tier == Tier::Quick { QUICK_RUNS } else { THOROUGH_RUNS },
+            wall_cap: Duration::from_secs(if tier == Tier::Quick { 90 } else { 1200 }),
+            rule: "one run = one supervisor session with one long-lived worker process: a tape-chosen number of deliveries (quick 200-600, thorough 500-2000; \
+                   1 run in 16 is a short session of 1-64) of (entry point, bytes), bytes = a valid seed with 0-4 tape-chosen mutations. A run ends at the first \
+                   panic / worker death / confirmed hang / canary drift that is not a recorded known finding. Non-trivial run: at least one delivery got past \
+                   the entry point's first validation step (outcome ok, or an error other than the `outer-*` classes from a mutated input). Distinct = distinct \
+                   hash over (entry point, outcome class, length class, mutation kinds) of all deliveries of the run."
+                .into(),
+            real_components: ENTRY_DOC.iter().map(|s| s.to_string()).collect(),
+            stub_components: vec![
+                "supervisor (delivery generation from the tape, violation bookkeeping)".into(),
+                "pipes and frame protocol between supervisor and worker process".into(),
+                "watchdog (20 s per reply; hang candidates re-run twice alone)".into(),
+                "mutators (byte-level, JSON-structure, delimiter, HTML nesting, push-rule anchors)".into(),
+                "HTTP router in front of try_from_http_request (path-template matcher, percent-decoding)".into(),
+                "state snapshots / auth chains handed to ruma-state-res (event ids given explicitly)".into(),
+                "canary battery (one well-formed input per entry point)".into(),
+            ],
+            assumptions: vec![
+                "worker thread stack = 8 MiB (platform default of a main thread)".into(),
+                "nesting bounds: 1000 for HTML, 128 for JSON (serde_json's own limit); deeper JSON is generated but must be rejected, not crash".into(),
+                "inputs <= 70 000 bytes".into(),
+                "hang = no reply within 20 s wall clock, confirmed twice alone in a fresh worker".into(),
+                "state-res inputs: the auth_events/prev_events graph among delivered events is a DAG (event ids are hashes from room v3 on); cyclic inputs are rejected by the harness; at most 64 events".into(),
+                "features: ruma-signatures/ring-compat, ruma-events/html + unstable-pdu, ruma-html/matrix enabled; no other unstable feature".into(),
+                "simfed-generated seeds are not used; seeds = embedded corpus + JSON fixtures under /repo/crates/*/tests".into(),
+            ],
+            probes,
+            fault_prefix: "fault.".into(),
+        })
+    }
+
+    fn run(&self, _profile: &str, tier: Tier, t: &mut Tape, trace: bool, known: &Known) -> RunOutcome {
+        let mut out = RunOutcome::default();
+        let c = corpus();
+        if let Some(i) = c.seeds.iter().position(|s| s.is_empty()) {
+            out.harness_error = Some(format!("entry point {} has no seeds", ENTRIES[i].name));
+            return out;
+        }
+        let (lo, hi) = if tier == Tier::Quick { (200, 600) } else { (500, 2000) };
+        let n = if t.below(16) == 0 { 1 + t.below(64) } else { t.range(lo, hi) } as u64;
+        let mut w = match Worker::spawn() {
+            Ok(w) => w,
+            Err(e) => {
+                out.harness_error = Some(e);
+                return out;
+            }
+        };
+        if w.canaries_not_ok > 0 {
+            out.harness_error = Some(format!("{} canary inputs are not accepted by their entry point (run `crashsim selftest`)", w.canaries_not_ok));
+            return out;
+        }
+        if w.canaries_unstable > 0 {
+            out.add("canary.unstable", w.canaries_unstable as u64);
+        }
+        let mut tb = TraceBuf { on: trace, head: Vec::new(), tail: VecDeque::new(), total: 0 };
+        tb.push(format!("session: {n} deliveries, {} entry points", ENTRIES.len()));
+        let mut fp: u64 = 0xcbf29ce484222325;
+        let mut nontrivial = 0u64;
+
+        for idx in 0..n {
+            let d = gen_delivery(t, c);
+            let name = ENTRIES[d.entry].name;
+            out.steps += 1;
+            out.bump("deliveries");
+            if d.kinds.is_empty() {
+                out.bump("pristine");
+            }
+            for k in &d.kinds {
+                out.bump(&format!("fault.{k}"));
+            }
+            // the delivery is on record (in `d`) before it is sent: if the worker dies, it is the culprit
+            let reply = w.deliver(d.entry as u32, &d.bytes, WATCHDOG);
+            let outcome_class: String;
+            let verdict = match reply {
+                Reply::Outcome { class, canary } => {
+                    outcome_class = class.clone();
+                    if canary != "canary_skip" {
+                        out.bump("canary.batteries");
+                    }
+                    if let Some(msg) = class.strip_prefix("panic:") {
+                        out.bump(&format!("entry.{name}.panic"));
+                        Verdict::Bad("panic", msg.to_string(), json!({"canary": canary}), false)
+                    } else if let Some(names) = canary.strip_prefix("canary_drift:") {
+                        Verdict::Bad("canary-drift", format!("canary outputs changed after this delivery: {names}"), json!({"drifted": names, "outcome": class}), true)
+                    } else {
+                        if class == "ok" {
+                            out.bump(&format!("entry.{name}.ok"));
+                            nontrivial += 1;
+                        } else {
+                            out.bump(&format!("entry.{name}.err"));
+                            let cls = class.strip_prefix("err:").unwrap_or(&class);
+                            if cls.starts_with("outer-") {
+                                out.bump("outer-rejected");
+                            } else if !d.kinds.is_empty() {
+                                nontrivial += 1;
+                            }
+                        }
+                        Verdict::Fine
+                    }
+                }
+                Reply::Died { signal, code } => {
+                    outcome_class = "died".into();
+                    out.bump(&format!("entry.{name}.abort"));
+                    Verdict::Bad("abort", format!("worker process died: signal={signal:?} exit_code={code:?}"), json!({"signal": signal, "exit_code": code}), true)
+                }
+                Reply::Timeout => {
+                    outcome_class = "timeout".into();
+                    w.kill();
+                    // a hang candidate is re-run twice alone before being reported
+                    let mut confirmed = 0;
+                    let mut other: Option<Reply> = None;
+                    for _ in 0..2 {
+                        match isolated(d.entry as u32, &d.bytes) {
+                            Ok(Reply::Timeout) => confirmed += 1,
+                            Ok(r) => {
+                                other = Some(r);
+                                break;
+                            }
+                            Err(e) => {
+                                out.harness_error = Some(e);
+                                return out;
+                            }
+                        }
+                    }
+                    if confirmed == 2 {
+                        Verdict::Bad("hang", "no reply within 20 s, three times (once in the session, twice alone in a fresh worker)".into(), json!({"watchdog_s": 20}), true)
+                    } else {
+                        out.bump("hang.unconfirmed");
+                        match other {
+                            Some(Reply::Died { signal, code }) => {
+                                Verdict::Bad("abort", format!("worker process died when the delivery was re-run alone: signal={signal:?} exit_code={code:?}"), json!({"signal": signal, "exit_code": code}), true)
+                            }
+                            Some(Reply::Outcome { class, .. }) if class.starts_with("panic:") => Verdict::Bad("panic", class[6..].to_string(), json!({}), true),
+                            _ => {
+                                // slow once, fine alone: not a finding; carry on with a fresh worker
+                                match Worker::spawn() {
+                                    Ok(nw) => w = nw,
+                                    Err(e) => {
+                                        out.harness_error = Some(e);
+                                        return out;
+                                    }
+                                }
+                                Verdict::Fine
+                            }
+                        }
+                    }
+                }
+                Reply::Protocol(e) => {
+                    out.harness_error = Some(e);
+                    return out;
+                }
+            };
+            let oc_for_fp = if outcome_class.starts_with("panic:") { "panic" } else { outcome_class.as_str() };
+            fp = simcore::fnv_mix(fp, simcore::fnv(name.as_bytes()));
+            fp = simcore::fnv_mix(fp, simcore::fnv(oc_for_fp.as_bytes()));
+            fp = simcore::fnv_mix(fp, len_class(d.bytes.len()));
+            for k in &d.kinds {
+                fp = simcore::fnv_mix(fp, simcore::fnv(k.as_bytes()));
+            }
+            let shown_outcome: String = outcome_class.chars().take(120).collect();
+            match verdict {
+                Verdict::Fine => {
+                    tb.push(format!("#{idx} {name} seed={} muts={:?} len={} => {shown_outcome}", d.seed, d.kinds, d.bytes.len()));
+                }
+                Verdict::Bad(kind, message, extra, replace) => {
+                    let signature = format!("crash/{kind}.{name}");
+                    tb.push(format!("#{idx} {name} seed={} muts={:?} len={} => {shown_outcome} ** {signature}", d.seed, d.kinds, d.bytes.len()));
+                    if known.is_known(PROP, &signature).is_some() {
+                        out.known_hits.push(format!("{PROP}:{signature}"));
+                        out.bump("known.stepped-over");
+                        if replace {
+                            w.kill();
+                            out.bump("worker.restarts");
+                            match Worker::spawn() {
+                                Ok(nw) => w = nw,
+                                Err(e) => {
+                                    out.harness_error = Some(e);
+                                    return out;
+                                }
+                            }
+                        }
+                        continue;
+                    }
+                    // is it the input alone, or the worker's history? (hangs were already re-run alone)
+                    w.kill();
+                    let iso = if kind == "hang" {
+                        json!("timeout x2")
+                    } else {
+                        match isolated(d.entry as u32, &d.bytes) {
+                            Ok(Reply::Outcome { class, canary }) => json!({"outcome": class, "canary": canary}),
+                            Ok(Reply::Died { signal, code }) => json!({"died": {"signal": signal, "exit_code": code}}),
+                            Ok(Reply::Timeout) => json!("timeout"),
+                            Ok(Reply::Protocol(e)) => json!({"protocol": e}),
+                            Err(e) => {
+                                out.harness_error = Some(e);
+                                return out;
+                            }
+                        }
+                    };
+                    let reproduced = match kind {
+                        "panic" => iso.get("outcome").and_then(|o| o.as_str()).is_some_and(|o| o.starts_with("panic:")),
+                        "abort" => iso.get("died").is_some(),
+                        "hang" => true,
+                        _ => false, // drift needs history by definition
+                    };
+                    let mut extra = extra;
+                    extra["alone_in_fresh_worker"] = iso;
+                    extra["reproduced_alone"] = json!(reproduced);
+                    out.violation = Some(Violation { property: PROP.into(), signature, detail: detail(c, &d, idx, kind, &message, extra) });
+                    break;
+                }
+            }
+        }
+        w.kill();
+        out.add("nontrivial", nontrivial);
+        out.nontrivial = nontrivial > 0;
+        out.fingerprint = fp;
+        out.trace = tb.finish();
+        out
+    }
+}
+
+const QUICK_RUNS: u64 = 800;
+const THOROUGH_RUNS: u64 = 6000;
+
+const ENTRY_DOC: &[&str] = &[
+    "ruma_common identifiers: UserId/RoomId/RoomAliasId/RoomOrAliasId/EventId/ServerName/KeyId (DeviceKeyId, SigningKeyId<AnyKeyName>, ServerSigningKeyId, CrossSigningKeyId, CrossSigningOrDeviceSigningKeyId, OneTimeKeyId)/ClientSecret/SessionId ::parse, parse_box, parse_arc, <&T>::try_from, accessors, serde round trip; UserId::parse_with_server_name; OwnedMxcUri validate/parts/media_id/server_name/is_valid; RoomVersionId::try_from + rules; DeviceId/TransactionId/VoipId/VoipVersionId",
+    "ruma_common::{MatrixUri, MatrixToUri}::parse, id, via, action, Display",
+    "ruma_federation_api::authentication::XMatrix (TryFrom<&HeaderValue>, parse, FromStr, Display, HeaderValue::from)",
+    "ruma_common::http_headers::ContentDisposition (TryFrom<&[u8]>, FromStr, Display; RFC 8187)",
+    "ruma_common::serde::Base64::<Standard|UrlSafe>::parse, serde",
+    "ruma_common::serde::Raw<T>: serde_json::from_slice, get_field, deserialize for AnyTimelineEvent, AnySyncTimelineEvent, AnyStateEvent, AnySyncStateEvent, AnyStrippedStateEvent, AnyToDeviceEvent, AnyGlobalAccountDataEvent, AnyRoomAccountDataEvent, AnyEphemeralRoomEvent, PresenceEvent; ruma_events::pdu::Pdu; RawExt::deserialize_with_type for AnyMessageLikeEventContent / AnyStateEventContent; RoomMessageEventContent::sanitize",
+    "ruma_common::push: Ruleset deserialisation, get_actions, get_match, FlattenedJson::from_raw, Ruleset::{insert, remove, set_enabled, set_actions, get}, PushCondition::applies (event_match globs), PatternedPushRule::applies_to",
+    "ruma_signatures::{canonical_json, content_hash, reference_hash, verify_json, verify_event, sign_json, hash_and_sign_event, Ed25519KeyPair::from_der}; ruma_common::canonical_json::{redact, redact_in_place, redact_content_in_place}; CanonicalJsonValue serde",
+    "ruma_html::{Html::parse, sanitize, sanitize_with (strict, compat, remove_reply_fallback), Display, remove_html_reply_fallback, sanitize_html, ElementData::to_matrix}; ruma_events::room::message::sanitize::remove_plain_reply_fallback",
+    "IncomingRequest::try_from_http_request: client send_message_event, sync_events, set_pushrule, join_room_by_id, send_state_event, create_filter, create_content; federation send_transaction_message, create_join_event v2, get_missing_events; appservice push_events; identity lookup_3pid, store_invitation; push gateway send_event_notification",
+    "IncomingResponse::try_from_http_response: sync_events v3, get_server_keys v2, authenticated_media get_content v1",
+    "ruma_state_res::{auth_types_for_event, auth_check, resolve}",
+];
+
+fn dev_gen() {
+    use ruma_common::serde::Base64;
+    use ruma_common::CanonicalJsonObject;
+    let doc: Base64 = Base64::parse(entries::PKCS8_B64).unwrap();
+    let kp = ruma_signatures::Ed25519KeyPair::from_der(doc.as_bytes(), "1".into()).unwrap();
+    println!("// SIGNED_JSON");
+    for s in [
+        r#"{}"#,
+        r#"{"one":1,"two":"Two","nested":{"a":[1,2,{"b":null}],"ü":"ü"},"unsigned":{"age":5}}"#,
+        r#"{"server_name":"domain","valid_until_ts":1652262000000,"verify_keys":{"ed25519:1":{"key":"3TPraTczVkDPTRaX4K+AfUuyx7Mzq1UafTXypnl0t2k"}},"old_verify_keys":{}}"#,
+        r#"{"mxid":"@bob:example.org","sender":"@alice:example.org","token":"tok123"}"#,
+    ] {
+        let mut o: CanonicalJsonObject = serde_json::from_str(s).unwrap();
+        ruma_signatures::sign_json(entries::ENTITY, &kp, &mut o).unwrap();
+        println!("    r###\"{}\"###,", serde_json::to_string(&o).unwrap());
+    }
+    println!("// SIGNED_EVENTS");
+    let all: Vec<&str> = seeds_events::STATE_EVENTS.iter().take(12).chain(seeds_events::MESSAGE_EVENTS.iter().take(4)).chain(seeds_events::MESSAGE_EVENTS.iter().skip(14).take(1)).copied().collect();
+    for (i, s) in all.iter().enumerate() {
+        let mut o: CanonicalJsonObject = serde_json::from_str(s).unwrap();
+        o.insert("depth".into(), serde_json::from_str("5").unwrap());
+        o.insert("prev_events".into(), serde_json::from_str(r#"["$Rqnc-F-dvnEYJTyHq_iKxU2bZ1CI92-kuZq3a5lr5Zg"]"#).unwrap());
+        o.insert("auth_events".into(), serde_json::from_str(r#"["$acR1l0raoZnm60CBwAVgqbZqoO/mYU81xysh1u7XcJk"]"#).unwrap());
+        // the entry points pick the room version from the input length; signature and hash have a
+        // fixed length, so sign once to learn the final length, then sign for that version
+        let _ = i;
+        let mut probe = o.clone();
+        ruma_signatures::hash_and_sign_event(entries::EVENT_ENTITY, &kp, &mut probe, &entries::rules_n(0).redaction).unwrap();
+        let len = serde_json::to_string(&probe).unwrap().len();
+        let rules = entries::rules_n(len);
+        ruma_signatures::hash_and_sign_event(entries::EVENT_ENTITY, &kp, &mut o, &rules.redaction).unwrap();
+        assert_eq!(serde_json::to_string(&o).unwrap().len(), len);
+        println!("    r###\"{}\"###,", serde_json::to_string(&o).unwrap());
+    }
+    println!("// RULESETS");
+    let u: &ruma_common::UserId = "@bob:example.org".try_into().unwrap();
+    println!("    r###\"{}\"###,", serde_json::to_string(&ruma_common::push::Ruleset::server_default(u)).unwrap());
+}
+
+fn main() {
+    let arg1 = std::env::args().nth(1);
+    match arg1.as_deref() {
+        Some("worker") => {
+            worker_main();
+            return;
+        }
+        Some("selftest") => std::process::exit(worker::selftest(std::env::args().nth(2).as_deref())),
+        Some("dev-gen") => {
+            dev_gen();
+            return;
+        }
+        Some("one") => {
+            // crashsim one <entry point> <file>: run one input in this process (debugging aid)
+            let name = std::env::args().nth(2).unwrap_or_default();
+            let file = std::env::args().nth(3).unwrap_or_default();
+            let Some(i) = entries::entry_index(&name) else {
+                eprintln!("unknown entry point {name}");
+                std::process::exit(2);
+            };
+            let bytes = std::fs::read(&file).unwrap_or_default();
+            simcore::install_quiet_panic_hook();
+            let h = std::thread::Builder::new().stack_size(worker::STACK_BYTES).spawn(move || println!("{}", worker::call(&ENTRIES[i], &bytes))).unwrap();
+            let _ = h.join();
+            return;
+        }
+        _ => {}
+    }
+    std::process::exit(simcore::driver_main(&CrashEngine));
+}
